@@ -382,7 +382,8 @@ func c19Submit(p *chk.Prog, r *chk.Report) {
 			sites := g.Find(func(m ast.Node) bool { return m == ast.Node(ss) })
 			okk := len(sites) == 1 && vf.MatchNew("reloadEvent{useOld: true}", ss.Value) != nil &&
 				g.Dominated(sites[0], isFailure) &&
-				g.Dominated(sites[0], g.GPat(false, "TS == *PREV"))
+				g.Dominated(sites[0], chk.GSame(g.GPat(false, "TS == *PREV"), g.GPat(false, "*PREV == TS"),
+					g.GPat(false, "TS == PREV", chk.H("PREV", isParamIdx(vf, 1))), g.GPat(false, "PREV == TS", chk.H("PREV", isParamIdx(vf, 1)))))
 			if okk {
 				// and a newly reported failure always asks for the re-apply: from the edge that establishes it every
 				// path to the end of the function passes the send
